@@ -292,96 +292,45 @@ def r3(repo, res):
 
 
 def r4(repo, res):
-    f = repo.func("diplotype::write_vcf")
-    # the store  T[m][S][C] = 1
-    stores = [n for n in walk_local(f) if isinstance(n, ast.Assign) and isinstance(n.targets[0], ast.Subscript)
-              and isinstance(n.targets[0].value, ast.Subscript) and isinstance(n.targets[0].value.value, ast.Subscript)]
-    if not stores:
-        res.err("C12.R4", "genotype-table store T[m][solution][copy] not found")
-        return
-    st = stores[0]
-    t = st.targets[0]
-    tbl, C, S = ast.unparse(t.value.value.value), ast.unparse(t.slice), ast.unparse(t.value.slice)
+    """Output dispatch of genotype(), folded whole: which writer runs for which output file, with which solutions."""
+    from checks._genotype import GenotypeModel, Scenario, events
 
-    def enum_loops(node):
-        out = {}
-        for p in [node] + list(_parents(node)):
-            if isinstance(p, ast.For) and isinstance(p.iter, ast.Call) and call_name(p.iter) == "enumerate" \
-                    and isinstance(p.target, ast.Tuple) and len(p.target.elts) == 2:
-                out[ast.unparse(p.target.elts[0])] = (ast.unparse(p.iter.args[0]), ast.unparse(p.target.elts[1]))
-            if isinstance(p, (ast.GeneratorExp, ast.ListComp)):
-                for g in p.generators:
-                    if isinstance(g.iter, ast.Call) and call_name(g.iter) == "enumerate" and isinstance(g.target, ast.Tuple):
-                        out[ast.unparse(g.target.elts[0])] = (ast.unparse(g.iter.args[0]), ast.unparse(g.target.elts[1]))
-        return out
-
-    el = enum_loops(st)
-    ok = S in el and C in el and el[C][0] == f"{el[S][1]}.solution"
-    sol_list = el[S][0] if S in el else None
-    res.ob("C12.R4", f, st, ok,
-           expected="store indexed by (enumerate index over the solutions, enumerate index over that solution's copies)",
-           found=f"{ast.unparse(t)} with {S}<-{el.get(S)}, {C}<-{el.get(C)}", key="table-store")
-    # reads T[m][S'][i]
-    reads = [n for n in ast.walk(f) if isinstance(n, ast.Subscript) and isinstance(n.ctx, ast.Load)
-             and isinstance(n.value, ast.Subscript) and isinstance(n.value.value, ast.Subscript)
-             and ast.unparse(n.value.value.value) == tbl]
-    res.floor("C12.R4", "genotype-table reads", len(reads), 3)
-    for r in reads:
-        S2, C2 = ast.unparse(r.value.slice), ast.unparse(r.slice)
-        el2 = enum_loops(r)
-        # C2 must range over range(len(<minor>.solution)) of the solution selected by S2
-        rng = None
-        for p in _parents(r):
-            if isinstance(p, (ast.GeneratorExp, ast.ListComp)):
-                for g in p.generators:
-                    if ast.unparse(g.target) == C2:
-                        rng = ast.unparse(g.iter)
-        nall_ok = False
-        if rng and S2 in el2:
-            minor_name = el2[S2][1]
-            defs = {n.targets[0].id: ast.unparse(n.value) for n in walk_local(f)
-                    if isinstance(n, ast.Assign) and isinstance(n.targets[0], ast.Name)}
-            arg = rng[len("range("):-1] if rng.startswith("range(") else ""
-            arg = defs.get(arg, arg)
-            nall_ok = arg == f"len({minor_name}.solution)"
-        ok = S2 in el2 and el2[S2][0] == sol_list and nall_ok
-        res.ob("C12.R4", f, r, ok,
-               expected="read indexed by the same solution index and a copy index ranging over that solution's copies",
-               found=f"{ast.unparse(r)}: {S2}<-{el2.get(S2)}, {C2} in {rng}", key="table-read:" + _field_of(r))
-    # MA names the major, MI the minor allele of the carrying copy
-    for d in [n for n in ast.walk(f) if isinstance(n, ast.Dict)]:
-        keys = [k.value for k in d.keys if isinstance(k, ast.Constant)]
-        if "MA" in keys and "MI" in keys:
-            ma = ast.unparse(d.values[keys.index("MA")])
-            mi = ast.unparse(d.values[keys.index("MI")])
-            gt = ast.unparse(d.values[keys.index("GT")]) if "GT" in keys else ""
-            res.ob("C12.R4", f, d, ".major" in ma and ".minor" not in ma and ".minor" in mi and ".major" not in mi
-                   and "'|'" in gt,
-                   expected="MA lists .major, MI lists .minor of the carrying copies; GT joined with '|'",
-                   found=f"MA<-{'major' if '.major' in ma else '?'} MI<-{'minor' if '.minor' in mi else '?'}", key="ma-mi-fields")
-    # header: one column per solution
-    # genotype(): suffix dispatch
     g = repo.func("genotype::genotype")
     res.analysed(g)
-    c = cfg_of(g)
-    defs = {n.targets[0].id: n.value for n in walk_local(g)
-            if isinstance(n, ast.Assign) and isinstance(n.targets[0], ast.Name)}
-    vcf_def = ast.unparse(defs.get("is_vcf")) if "is_vcf" in defs else ""
-    res.ob("C12.R4", g, defs.get("is_vcf", g), ".endswith('.vcf')" in vcf_def,
-           expected="VCF output selected by the '.vcf' suffix of the output file", found=vcf_def, key="vcf-suffix")
-    for callee, flag in (("write_vcf", "is_vcf"), ("write_decomposition", "is_aldy")):
-        cs = find_calls(g, callee)
-        ok = False
-        if cs:
-            facts = [(ast.unparse(t), p) for t, p in c.guards(c.node_of(cs[0])) if isinstance(t, ast.expr)]
-            ok = (flag, True) in facts
-        res.ob("C12.R4", g, cs[0] if cs else g, ok, expected=f"{callee} runs exactly under `{flag}`",
-               found="ok" if ok else "guard not found", key=f"dispatch:{callee}")
-    # decomposition header only for the decomposition format
-    hdr = [x for x in calls_in(g) if call_name(x) == "print" and x.args and "OUTPUT_COLS" in ast.unparse(x.args[0])]
-    ok = bool(hdr) and ("is_aldy", True) in [(ast.unparse(t), p) for t, p in c.guards(c.node_of(hdr[0])) if isinstance(t, ast.expr)]
-    res.ob("C12.R4", g, hdr[0] if hdr else g, ok, expected="column header printed only for the decomposition format",
-           found="ok" if ok else "header not guarded by is_aldy", key="dispatch:header")
+    gm = GenotypeModel(repo)
+    desc = dict(cn=[("A", 0.0)], majors={"A": [("A1", 0.0), ("A2", 0.0)]}, minors={"A1": [("A1a", 0.0)], "A2": [("A2a", 0.0)]})
+    cases = {"decomposition file": (Obj(name="out.aldy"), {}), "VCF file": (Obj(name="out.vcf"), {}), "simple file": (Obj(name="out.simple"), {}),
+             "standard output": (Obj(name="<stdout>"), {}), "standard output, simple": (Obj(name="<stdout>"), {"is_simple": True}), "no output": (None, {})}
+    for label, (out, extra) in cases.items():
+        try:
+            k, v, trace, printed = gm.run(Scenario(args=dict(output_file=out, **extra), params=dict(gap=0.1), **desc))
+        except Unfoldable as e:
+            res.err("C12.R4", f"genotype() outside the folding language: {e}")
+            return
+        wd, wv = events(trace, "write_decomposition"), events(trace, "write_vcf")
+        text = "".join(t for t, fl in printed if out is not None and fl is out)
+        stray = [t for t, fl in printed if fl is not out or out is None]
+        reported = [m.solution for m in list(v.values())[0]] if k == "return" and isinstance(v, dict) and v else None
+        if reported != ["A1a", "A2a"]:
+            res.ob("C12.R4", g, g, False, expected=f"{label}: two solutions reported", found=f"{k} {str(v)[:60]}", key=f"dispatch:{label}")
+            continue
+        if label in ("decomposition file", "standard output"):
+            ok = not wv and [(w[4], w[5].solution, w[6]) for w in wd] == [(1, "A1a", out), (2, "A2a", out)] and text.startswith("#c1\tc2\n") \
+                and text.count("#Solution") == 2 and [w[1] for w in wd] == ["SAMPLE", "SAMPLE"]
+            exp = "column header once, then `#Solution i` and the decomposition of every reported solution, numbered from 1, into that file; no VCF"
+        elif label == "VCF file":
+            ok = not wd and len(wv) == 1 and [m.solution for m in wv[0][4]] == reported and wv[0][5] is out and wv[0][1] == "SAMPLE" and not text
+            exp = "write_vcf once with the whole reported list and that file; no decomposition rows, no header"
+        elif label in ("simple file", "standard output, simple"):
+            ok = not wd and not wv and text == "SAMPLE\tG\tM[A1a]\tL[A1a]\tM[A2a]\tL[A2a]\t\n".replace(" ", "")
+            exp = "one line: sample, gene, then major and legacy minor diplotype of every reported solution, closed by a newline"
+        else:
+            ok = not wd and not wv and not printed
+            exp = "nothing is written"
+        res.ob("C12.R4", g, g, ok and not (stray and out is not None), expected=f"{label}: {exp}",
+               found="ok" if ok else f"decomposition calls {[(w[4], w[5].solution) for w in wd]}, vcf calls {len(wv)}, text {text[:80]!r}",
+               clause="the output file describes, per allele copy, exactly the variants that copy is reported to carry (every reported solution, once, in its format)",
+               key=f"dispatch:{label}")
 
 
 def r5(repo, res):
@@ -408,13 +357,22 @@ def r5(repo, res):
     def pr(*a, sep=" ", end="\n", file=None):
         rows.append(sep.join(str(x) for x in a))
 
-    def hook(node, ev):
-        if isinstance(node, ast.Subscript) and isinstance(node.value, ast.Name) and node.value.id == "coverage":
-            return support.get(ev.ev(node.slice), 0)
-        return NotImplemented
+    class Cov:
+        _fold_ok = True
 
+        def __getitem__(self, m):
+            return support.get(Mut(*m), 0)
+
+        def coverage(self, m):
+            return support.get(Mut(*m), 0)
+
+    params = [a_.arg for a_ in f.args.args]
+    known = {"sample": "S", "gene": gene, "sol_id": 7, "minor": msol, "f": "FILE", "coverage": Cov()}
+    if [a_ for a_ in params if a_ not in known]:
+        res.err("C12.R5", f"write_decomposition has parameters the analysis does not know: {[a_ for a_ in params if a_ not in known]}")
+        return
     try:
-        k, v = Evaluator({"sample": "S", "gene": gene, "sol_id": 7, "minor": msol, "f": "FILE"}, funcs={"print": pr}, hook=hook).run(
+        k, v = Evaluator(dict(known), funcs={"print": pr}).run(
             [s_ for s_ in f.body if not (isinstance(s_, ast.Expr) and isinstance(s_.value, ast.Constant))])
     except (Unfoldable, Raised) as e:
         res.err("C12.R5", f"write_decomposition outside the folding language: {e}")
@@ -437,7 +395,7 @@ def r5(repo, res):
            key="decomposition-rows")
     rows.clear()
     try:
-        k, v = Evaluator({"sample": "S", "gene": gene, "sol_id": 8, "minor": rep, "f": "FILE"}, funcs={"print": pr}, hook=hook).run(
+        k, v = Evaluator(dict(known, sol_id=8, minor=rep), funcs={"print": pr}).run(
             [s_ for s_ in f.body if not (isinstance(s_, ast.Expr) and isinstance(s_.value, ast.Constant))])
     except (Unfoldable, Raised) as e:
         res.err("C12.R5", f"write_decomposition outside the folding language: {e}")
@@ -463,13 +421,7 @@ def r6(repo, res):
                                             "3": Obj(func_muts={F1}, minors={"3.001": minor([S2])})},
                get_functional=lambda m, infer=True: {F1: "P34S"}.get(Mut(*m)),
                get_rsid=lambda m, default=True: {F1: "rs1", S1: "rs2"}.get(Mut(*m), f"{m[0] + 1}.{m[1]}" if default else "-"))
-    sol = [Obj(major="1", minor="1.002", added=[], missing=[]), Obj(major="3", minor="3.001", added=[], missing=[])]
-    minors = [Obj(solution=sol, get_major_diplotype=lambda: "*1 / *3")]
     support = {F1: 11, S1: 12, S2: 0}  # S2 is carried although no read covers its position: it is reported all the same
-    out = []
-
-    def pr(*a, sep=" ", end="\n", file=None):
-        out.append(sep.join(str(x) for x in a))
 
     class Cov:
         _fold_ok = True
@@ -488,36 +440,88 @@ def r6(repo, res):
             t = self.total(m)
             return 100.0 * self[m] / t if t else 0
 
+    A1 = lambda: Obj(major="1", minor="1.002", added=[], missing=[])  # noqa
+    A3 = lambda: Obj(major="3", minor="3.001", added=[], missing=[])  # noqa
+    scenarios = [
+        ("two different copies", [A1(), A3()],
+         [["22", "151", "rs2", "T", "A", "1|0", "12", "*1,-", "*1.002,-"],
+          ["22", "251", "rs1", "C", "T", "0|1", "11", "-,*3", "-,*3.001"],
+          ["22", "351", "-", "G", "A", "0|1", "0", "-,*3", "-,*3.001"]]),
+        ("two identical copies", [A3(), A3()],
+         [["22", "251", "rs1", "C", "T", "1|1", "11", "*3,*3", "*3.001,*3.001"],
+          ["22", "351", "-", "G", "A", "1|1", "0", "*3,*3", "*3.001,*3.001"]]),
+        ("three copies, first and last identical", [A3(), A1(), A3()],
+         [["22", "151", "rs2", "T", "A", "0|1|0", "12", "-,*1,-", "-,*1.002,-"],
+          ["22", "251", "rs1", "C", "T", "1|0|1", "11", "*3,-,*3", "*3.001,-,*3.001"],
+          ["22", "351", "-", "G", "A", "1|0|1", "0", "*3,-,*3", "*3.001,-,*3.001"]]),
+    ]
+    def independent_cells(node, ev):
+        """Known finding C12.R2 (one cell object shared by all solutions) is set aside here so that the rest of the
+        multi-solution logic can still be decided: `[cell] * n` is read as n independent cells."""
+        if isinstance(node, ast.BinOp) and isinstance(node.op, ast.Mult) and isinstance(node.left, ast.List) and len(node.left.elts) == 1 \
+                and isinstance(node.left.elts[0], ast.Call) and call_name(node.left.elts[0]).endswith("defaultdict"):
+            return [ev.ev(node.left.elts[0]) for _ in range(ev.ev(node.right))]
+        return NotImplemented
+
     params = [a.arg for a in f.args.args]
-    env = {"sample": "S", "gene": gene, "minors": minors, "f": "FILE", "version": "0", "coverage": Cov()}
-    unknown = [a for a in params if a not in env]
-    if unknown:
-        res.err("C12.R6", f"write_vcf has parameters the analysis does not know: {unknown}")
-        return
+    # two solutions in one file: every column describes its own solution
+    outm = []
+    two = [Obj(solution=[A1(), A3()], get_major_diplotype=lambda: "*1 / *3"), Obj(solution=[A3(), A3()], get_major_diplotype=lambda: "*3 / *3")]
     try:
-        k, v = Evaluator(env, funcs={"print": pr, "td": lambda t: t, "collections.defaultdict": _c.defaultdict}).run(
+        k, v = Evaluator({"sample": "S", "gene": gene, "minors": two, "f": "FILE", "version": "0", "coverage": Cov()},
+                         funcs={"print": lambda *a, sep=" ", end="\n", file=None: outm.append(sep.join(str(x) for x in a)), "td": lambda t: t,
+                                "collections.defaultdict": _c.defaultdict}, hook=independent_cells).run(
             [s_ for s_ in f.body if not (isinstance(s_, ast.Expr) and isinstance(s_.value, ast.Constant))])
     except (Unfoldable, Raised) as e:
         res.err("C12.R6", f"write_vcf outside the folding language: {e}")
         return
-    recs = [r.split("\t") for r in out[1:]] if len(out) > 1 else []
-    head = out[0].splitlines()[-1].split("\t") if out else []
-    want = [["22", "151", "rs2", "T", "A", "1|0", "12", "*1,-", "*1.002,-"],
-            ["22", "251", "rs1", "C", "T", "0|1", "11", "-,*3", "-,*3.001"],
-            ["22", "351", "-", "G", "A", "0|1", "0", "-,*3", "-,*3.001"]]
-    got = []
-    for r in recs:
-        if len(r) >= 10:
+    cols = []
+    for r in [x.split("\t") for x in outm[1:]]:
+        if len(r) >= 11:
             fmt = r[8].split(":")
-            val = dict(zip(fmt, r[9].split(":")))
-            got.append(r[:5] + [val.get("GT"), val.get("DP"), val.get("MA"), val.get("MI")])
-    ok = k != "raise" and got == want and len(head) == 10 and head[:2] == ["#CHROM", "POS"] and head[9].startswith("S:0:")
-    res.ob("C12.R6", f, f, ok,
-           expected="one record per carried variant in position order: CHROM, one-based POS, dbSNP id, REF, ALT, and per solution GT / DP / MA / MI "
-                    "naming exactly the carrying copies; one sample column per solution",
-           found="3 records agree" if ok else f"{got}; header {head[-2:]}",
-           clause="the genotype of allele copy i at a variant is 1 exactly if that copy is reported to carry the variant; the MA/MI fields name exactly the carrying copies",
-           key="vcf-records:substitutions")
+            cols.append([r[1]] + [tuple(dict(zip(fmt, c_.split(":"))).get(q) for q in ("GT", "MA", "MI")) for c_ in r[9:11]])
+    wantm = [["151", ("1|0", "*1,-", "*1.002,-"), ("0|0", "-,-", "-,-")],
+             ["251", ("0|1", "-,*3", "-,*3.001"), ("1|1", "*3,*3", "*3.001,*3.001")],
+             ["351", ("0|1", "-,*3", "-,*3.001"), ("1|1", "*3,*3", "*3.001,*3.001")]]
+    headm = outm[0].splitlines()[-1].split("\t") if outm else []
+    okm = k != "raise" and cols == wantm and len(headm) == 11 and headm[9].startswith("S:0:") and headm[10].startswith("S:1:")
+    res.ob("C12.R6", f, f, okm,
+           expected="two solutions (known finding C12.R2 set aside: cells read as independent): column i carries the genotype, MA and MI of solution i's own copies",
+           found="agrees" if okm else f"{cols}; header {headm[-2:]}",
+           clause="the genotype of allele copy i at a variant is 1 exactly if that copy is reported to carry the variant", key="vcf-records:two-solutions")
+    for label, sol, want in scenarios:
+        out = []
+
+        def pr(*a, sep=" ", end="\n", file=None):
+            out.append(sep.join(str(x) for x in a))
+
+        minors = [Obj(solution=sol, get_major_diplotype=lambda: "*x")]
+        env = {"sample": "S", "gene": gene, "minors": minors, "f": "FILE", "version": "0", "coverage": Cov()}
+        unknown = [a for a in params if a not in env]
+        if unknown:
+            res.err("C12.R6", f"write_vcf has parameters the analysis does not know: {unknown}")
+            return
+        try:
+            k, v = Evaluator(env, funcs={"print": pr, "td": lambda t: t, "collections.defaultdict": _c.defaultdict}).run(
+                [s_ for s_ in f.body if not (isinstance(s_, ast.Expr) and isinstance(s_.value, ast.Constant))])
+        except (Unfoldable, Raised) as e:
+            res.err("C12.R6", f"write_vcf outside the folding language: {e}")
+            return
+        recs = [r.split("\t") for r in out[1:]] if len(out) > 1 else []
+        head = out[0].splitlines()[-1].split("\t") if out else []
+        got = []
+        for r in recs:
+            if len(r) >= 10:
+                fmt = r[8].split(":")
+                val = dict(zip(fmt, r[9].split(":")))
+                got.append(r[:5] + [val.get("GT"), val.get("DP"), val.get("MA"), val.get("MI")])
+        ok = k != "raise" and got == want and len(head) == 10 and head[:2] == ["#CHROM", "POS"] and head[9].startswith("S:0:")
+        res.ob("C12.R6", f, f, ok,
+               expected=f"{label}: one record per carried variant in position order: CHROM, one-based POS, dbSNP id, REF, ALT, and per solution GT / DP / MA / MI "
+                        "naming exactly the carrying copies; one sample column per solution",
+               found=f"{len(want)} records agree" if ok else f"{got}; header {head[-2:]}",
+               clause="the genotype of allele copy i at a variant is 1 exactly if that copy is reported to carry the variant; the MA/MI fields name exactly the carrying copies",
+               key=f"vcf-records:substitutions:{label}")
 
 
 def _parents(n):
@@ -565,13 +569,13 @@ MUTANTS = [
     dict(name="R3 POS zero-based", module="diplotype", expect="C12.R3", old="pos=m.pos + 1,", new="pos=m.pos,"),
     dict(name="R3 substitution alleles swapped", module="diplotype", expect="C12.R3",
          old="            alt = m.op[2]\n", new="            alt = m.op[0]\n"),
-    dict(name="R4 genotype table written with copy index of another loop", module="diplotype", expect="C12.R4",
+    dict(name="R4 genotype table written with copy index of another loop", module="diplotype", expect="C12.R6",
          old="                all_mutations[m][mi][ai] = 1", new="                all_mutations[m][ai][mi] = 1"),
-    dict(name="R4 MI lists majors", module="diplotype", expect="C12.R4",
+    dict(name="R4 MI lists majors", module="diplotype", expect="C12.R6",
          old='f"*{minor.solution[i].minor}"', new='f"*{minor.solution[i].major}"'),
     dict(name="R4 vcf written for every format", module="genotype", expect="C12.R4",
          old="    if is_vcf:\n        diplotype.write_vcf(", new="    if output_file:\n        diplotype.write_vcf("),
-    dict(name="R4 GT read with fixed solution 0", module="diplotype", expect="C12.R4",
+    dict(name="R4 GT read with fixed solution 0", module="diplotype", expect="C12.R6",
          old='"GT": "|".join(str(all_mutations[m][mi][i]) for i in range(nall)),',
          new='"GT": "|".join(str(all_mutations[m][0][i]) for i in range(nall)),'),
     dict(name="R6 MA and MI swapped in the record", module="diplotype", expect=["C12.R6", "C12.R4"],
